@@ -25,7 +25,7 @@ func init() {
 	runner.Register(&runner.Check{
 		ID:    "C12",
 		Level: "exploration",
-		Rule: "program = 2 (quick) or 3 (thorough) rules of one phase whose transformation lists are drawn from {[], [lowercase], [lowercase,trim], [lowercase,trim,removeWhitespace], [trim], [trim,lowercase], [urlDecode], [urlDecode,urlDecode], [uppercase,lowercase]} over targets " +
+		Rule: "program = 2 (quick) or 3 (thorough) rules of one phase whose transformation lists are drawn from {[], [lowercase], [lowercase,trim], [lowercase,trim,removeWhitespace], [trim], [trim,lowercase], [urlDecode], [urlDecode,urlDecode], [uppercase,lowercase], [hexDecode], [hexDecode,lowercase] (hexDecode fails on most values)} over targets " +
 			"{ARGS_GET, ARGS_GET:a, ARGS_GET|!ARGS_GET:b, &ARGS_GET, ARGS, REQUEST_HEADERS, chain->MATCHED_VAR (raw and t:trimRight starters), chain->MATCHED_VARS, multiMatch rules, ENV:k rewritten by setenv between rules, RULE:id}; " +
 			"request = repeated / case-variant names with values that the transformations change differently; every map order within the bound; each transaction is run twice on the same (pool-recycled) object. " +
 			"Oracle: the same program with rule i's list prefixed by a distinct identity transformation registered through the plugin API (no two rules can then share a cache entry) must give the same fired rules and match data. " +
@@ -49,7 +49,9 @@ type kase struct {
 }
 
 var transLists = [][]string{nil, {"lowercase"}, {"lowercase", "trim"}, {"lowercase", "trim", "removeWhitespace"}, {"trim"}, {"trim", "lowercase"},
-	{"urlDecode"}, {"urlDecode", "urlDecode"}, {"uppercase", "lowercase"}}
+	{"urlDecode"}, {"urlDecode", "urlDecode"}, {"uppercase", "lowercase"},
+	// hexDecode fails on most of the values below (the value then stays as it was): what is shared must be that value, not the failed step's output
+	{"hexDecode"}, {"hexDecode", "lowercase"}}
 
 var kinds = []ruleT{
 	{Target: "ARGS_GET", Kind: "plain"},
